@@ -168,6 +168,49 @@ def bounded(seed, quick):
             ev += 1
             if not (ks[0] >= ks[1] >= ks[2] >= norm.ppf(p) - 1e-9 and abs(ks[2] - norm.ppf(p)) < 0.05):
                 return ev, dict(what="ksingle does not converge to the normal quantile from above", p=p, c=c, ks=ks)
+    # one-sided factor: the defining probability statement P[ xbar + k s >= mu + z_p sigma ] == c, by numerical integration over the chi-square density
+    # (no nct), incl. confidence below 50 percent and coverage at/below 50 percent, scalar and broadcast calls
+    def conf_of_k(k_, p_, n_):
+        zp = norm.ppf(p_)
+        from scipy.stats import chi2 as _c2
+        f_ = lambda w: _c2.pdf(w, n_ - 1) * norm.cdf(np.sqrt(n_) * (k_ * np.sqrt(w / (n_ - 1)) - zp))
+        return quad(f_, 0, np.inf, limit=200)[0]
+    for n_ in (3, 8, 30):
+        for p_ in (0.3, 0.5, 0.9, 0.99):
+            for c_ in (0.1, 0.25, 0.5, 0.9):
+                with warnings.catch_warnings():
+                    warnings.simplefilter("ignore")
+                    k_ = float(stats.ksingle(p_, c_, n_))
+                ev += 1
+                got_c = conf_of_k(k_, p_, n_)
+                if abs(got_c - c_) > 2e-6:
+                    return ev, dict(what="ksingle: the returned factor does not satisfy the defining probability statement (confidence of the bound is %.6f, requested %.6f)" % (got_c, c_), p=p_, c=c_, n=n_, k=k_)
+    with warnings.catch_warnings():
+        warnings.simplefilter("ignore")
+        kb = stats.ksingle(np.array([[0.9], [0.5]]), np.array([0.25, 0.9]), 8)
+        ks = np.array([[float(stats.ksingle(pp, cc, 8)) for cc in (0.25, 0.9)] for pp in (0.9, 0.5)])
+    ev += 1
+    if np.shape(kb) != (2, 2) or not np.allclose(kb, ks, rtol=1e-12):
+        return ev, dict(what="ksingle with broadcast array arguments differs from the scalar calls")
+    # order statistics 'r': the returned rank is the LARGEST rank whose confidence is >= c, element by element for broadcast arguments
+    from math import comb as _comb
+    def conf_r(r_, n_, p_):
+        return sum(_comb(n_, j) * (1 - p_) ** j * p_ ** (n_ - j) for j in range(r_, n_ + 1)) if r_ >= 1 else 1.0
+    pgrid, cgrid, ngrid = np.array([0.9, 0.95, 0.99, 0.5]), np.array([0.5, 0.9]), np.array([25, 90, 300])
+    with warnings.catch_warnings():
+        warnings.simplefilter("ignore")
+        rr = stats.order_stats("r", p=pgrid[:, None, None], c=cgrid[None, :, None], n=ngrid[None, None, :])
+    ev += 1
+    if np.shape(rr) != (4, 2, 3):
+        return ev, dict(what="order_stats('r') with broadcast arguments returns shape %s" % (np.shape(rr),))
+    for i_, p_ in enumerate(pgrid):
+        for j_, c_ in enumerate(cgrid):
+            for k2, n_ in enumerate(ngrid):
+                r_ = int(rr[i_, j_, k2])
+                best = max([q for q in range(0, n_ + 1) if conf_r(q, int(n_), float(p_)) >= c_ - 1e-12])
+                near_tie = any(abs(conf_r(q, int(n_), float(p_)) - c_) < 1e-9 for q in (r_, r_ + 1, best))
+                if r_ != best and not near_tie:
+                    return ev, dict(what="order_stats('r') (broadcast call) does not return the largest rank meeting the confidence", p=float(p_), c=float(c_), n=int(n_), got=r_, want=int(best))
     # order statistics 'c': the confidence that the r-th largest of n samples exceeds the p-quantile = P[at least r of n exceed it], exceedance probability 1-p
     from math import comb
     for n_ in (1, 5, 12, 40):
